@@ -70,7 +70,8 @@ AsGraph(gr, start) ==
    finals |-> SetToSeq(gr.fin),
    nodes |-> [i \in 1 .. gr.n |-> i - 1],
    edges |-> [i \in DOMAIN gr.es |-> <<gr.es[i].s, gr.es[i].d, i>>],
-   syms |-> [i \in DOMAIN gr.es |-> gr.es[i].sym]]
+   syms |-> [i \in DOMAIN gr.es |-> gr.es[i].sym],
+   adj |-> [n \in 1 .. gr.n |-> SetToSeq({<<gr.es[i].s, gr.es[i].d, i>> : i \in {j \in DOMAIN gr.es : gr.es[j].s = n - 1}})]]
 
 TrieLang(clusters, dev) == GraphLang(AsGraph(BuildTrie(clusters, dev), 0))
 =============================================================================
